@@ -921,6 +921,13 @@ class Network:
                 return_when=asyncio.FIRST_COMPLETED
             )
 
+        except asyncio.CancelledError:
+            # This attempt got cancelled after the peer had already pierced the
+            # firewall: nobody is going to use that connection
+            if expected_connection_future.done() and not expected_connection_future.cancelled():
+                await expected_connection_future.result().disconnect(CloseReason.REQUESTED)
+            raise
+
         finally:
             # Whatever happens here (also if sending failed or this attempt got
             # cancelled), we can cancel all pending futures
@@ -1164,9 +1171,10 @@ class Network:
 
         elif isinstance(peer_init_message, PeerPierceFirewall.Request):
             ticket = peer_init_message.ticket
-            try:
-                connection_future = self._expected_connection_futures[ticket]
-            except KeyError:
+            connection_future = self._expected_connection_futures.get(ticket)
+            # A future that is already done (cancelled) is only removed during a
+            # next iteration of the loop: nobody is waiting for it anymore
+            if connection_future is None or connection_future.done():
                 logger.warning(
                     "%s:%d : unknown pierce firewall ticket : %d",
                     connection.hostname, connection.port, ticket
